@@ -29,3 +29,10 @@ Theorem s_chain (G : P -> Prop) p : ClS G p <-> exists g l, G g /\ Forall G l /\
 Proof. apply cl_is_chain; laws. Qed.
 Theorem s_mono (G G' : P -> Prop) p : (forall g, G g -> ClS G' g) -> ClS G p -> ClS G' p.
 Proof. apply cl_mono. Qed.
+
+(* a path of generators: the closure is the set of contiguous segment products (type A, one leg) *)
+From PauLie Require Import PathT.
+Theorem s_path_closure (m : nat) (g : nat -> P) :
+  (forall i j, (i < m)%nat -> (j < m)%nat -> anti (g i) (g j) = adj i j) ->
+  forall p, ClS (PathT.G P m g) p <-> IsSeg P mul m g p.
+Proof. intros Hpath p. apply path_closure; laws. Qed.
